@@ -18,7 +18,7 @@ import ast
 import copy
 
 from .astutil import U, walk_own, path_returns
-from .normalize import _table, _const, _Sub, _stored, fold_append_sequences, _Getattr
+from .normalize import _table, _const, _Sub, _stored, fold_append_sequences, _Getattr, iteration_locals, names_outside
 
 MAX_ROWS = 32
 
@@ -287,6 +287,92 @@ def propagate_constant_locals(fnode):
     return True
 
 
+def propagate_tuple_locals(fnode):
+    """a local bound exactly once to a tuple / list display and only ever read as NAME[<constant index>] or unpacked whole
+    (`a, b, c = NAME`) is replaced element-wise"""
+    counts = {}
+    defs = {}
+    for n in walk_own(fnode):
+        tg = []
+        if isinstance(n, ast.Assign):
+            tg = n.targets
+        elif isinstance(n, (ast.AugAssign, ast.AnnAssign, ast.For)):
+            tg = [n.target]
+        elif isinstance(n, ast.comprehension):
+            tg = [n.target]
+        for t in tg:
+            for x in ast.walk(t):
+                if isinstance(x, ast.Name) and isinstance(x.ctx, ast.Store):
+                    counts[x.id] = counts.get(x.id, 0) + 1
+        if isinstance(n, ast.Assign) and len(n.targets) == 1 and isinstance(n.targets[0], ast.Name) and isinstance(n.value, (ast.Tuple, ast.List)) \
+                and not any(isinstance(x, ast.Starred) for x in n.value.elts):
+            defs[n.targets[0].id] = n
+    par = {}
+    for n in ast.walk(fnode):
+        for c in ast.iter_child_nodes(n):
+            par[c] = n
+    use = {}
+    for nm, d in defs.items():
+        if counts.get(nm) != 1:
+            continue
+        ok = True
+        n_el = len(d.value.elts)
+        # elements are evaluated once at the definition: substituting is sound when they are cheap, or each is read at most once
+        reads = [0] * n_el
+        for x in walk_own(fnode):
+            if isinstance(x, ast.Name) and x.id == nm and isinstance(x.ctx, ast.Load):
+                p = par.get(x)
+                if isinstance(p, ast.Subscript) and p.value is x and isinstance(p.slice, ast.Constant) and isinstance(p.slice.value, int) and -n_el <= p.slice.value < n_el:
+                    reads[p.slice.value % n_el] += 1
+                    continue
+                if isinstance(p, ast.Assign) and p.value is x and len(p.targets) == 1 and isinstance(p.targets[0], (ast.Tuple, ast.List)) and len(p.targets[0].elts) == n_el \
+                        and all(isinstance(t, ast.Name) for t in p.targets[0].elts):
+                    for i in range(n_el):
+                        reads[i] += 1
+                    continue
+                ok = False
+                break
+        if ok and sum(reads) > 0 and all(r <= 1 or _cheap(el) or isinstance(el, ast.Subscript) for r, el in zip(reads, d.value.elts)):
+            use[nm] = d
+    if not use:
+        return False
+
+    class P(ast.NodeTransformer):
+        def visit_FunctionDef(self, n):
+            if n is fnode:
+                self.generic_visit(n)
+            return n
+
+        def visit_Subscript(self, n):
+            self.generic_visit(n)
+            if isinstance(n.value, ast.Name) and n.value.id in use and isinstance(n.slice, ast.Constant) and isinstance(n.ctx, ast.Load):
+                return copy.deepcopy(use[n.value.id].value.elts[n.slice.value])
+            return n
+
+        def visit_Assign(self, n):
+            if isinstance(n.value, ast.Name) and n.value.id in use and isinstance(n.targets[0], (ast.Tuple, ast.List)):
+                n.value = copy.deepcopy(use[n.value.id].value)
+                return n
+            self.generic_visit(n)
+            return n
+    P().visit(fnode)
+
+    def strip(stmts):
+        out = []
+        for st in stmts:
+            if any(st is v for v in use.values()):
+                continue
+            for fld in ("body", "orelse", "finalbody"):
+                sub = getattr(st, fld, None)
+                if isinstance(sub, list) and sub and isinstance(sub[0], ast.stmt) and not isinstance(st, (ast.FunctionDef, ast.ClassDef)):
+                    new = strip(sub)
+                    setattr(st, fld, new or ([ast.Pass()] if fld == "body" else []))
+            out.append(st)
+        return out
+    fnode.body = strip(fnode.body)
+    return True
+
+
 # --------------------------------------------------------------------------------------------------- P1 closures
 def _closure_expr(fdef):
     """(params, defaults, expression) for a local function whose body is assignments / if-returns: the value as one
@@ -456,10 +542,18 @@ def _rows(repo, f, it):
         if isinstance(e, (ast.Tuple, ast.List)) and e.elts and len(e.elts) <= MAX_ROWS and all(
                 isinstance(r, (ast.Tuple, ast.List)) and r.elts and all(_const(x) or _cheap(x) for x in r.elts) and any(_const(x) for x in r.elts) for r in e.elts):
             return list(e.elts)
+        # a display of plain names / paths: for idx in (idx1, idx2, idx3)
+        if isinstance(e, (ast.Tuple, ast.List)) and 1 < len(e.elts) <= 8 and all(isinstance(x, (ast.Name, ast.Attribute)) and _cheap(x) for x in e.elts):
+            return list(e.elts)
         return _table(repo, f, e) if isinstance(e, (ast.Name, ast.Attribute)) else None
     t = table(it)
     if t is not None:
         return [[r] for r in t]
+    if isinstance(it, ast.Call) and isinstance(it.func, ast.Name) and it.func.id == "range" and not it.keywords and 1 <= len(it.args) <= 2 \
+            and all(isinstance(a, ast.Constant) and isinstance(a.value, int) for a in it.args):
+        lo, hi = (0, it.args[0].value) if len(it.args) == 1 else (it.args[0].value, it.args[1].value)
+        if 0 < hi - lo <= 8:
+            return [[ast.Constant(value=i)] for i in range(lo, hi)]
     if isinstance(it, ast.Call) and isinstance(it.func, ast.Name) and not it.keywords:
         if it.func.id == "enumerate" and len(it.args) == 1:
             t = table(it.args[0])
@@ -528,7 +622,7 @@ def unroll_loops(repo, f, counter):
                         st.body = lbody
                         tnames = set(binds[0])
                         stored = _stored(st.body)
-                        locals_ = stored - tnames
+                        locals_ = iteration_locals(st.body, names_outside(f.node, st)) - tnames     # loop-carried names keep their name
                         rebound = stored & tnames          # loop variables re-assigned in the body: bound by assignment, not substitution
                         k = counter[0]
                         counter[0] += 1
@@ -574,6 +668,17 @@ def unroll_loops(repo, f, counter):
             self.generic_visit(n)
             it = self._expand(n, lambda b: _Sub(b, {}).visit(copy.deepcopy(n.elt)))
             return n if it is None else ast.copy_location(ast.List(elts=it, ctx=ast.Load()), n)
+
+        def visit_Assign(self, n):
+            # a, b, c = (E(x) for x in CONST)   -> a, b, c = (E(x0), E(x1), E(x2))
+            if len(n.targets) == 1 and isinstance(n.targets[0], (ast.Tuple, ast.List)) and isinstance(n.value, ast.GeneratorExp):
+                g = n.value
+                it = self._expand(g, lambda b: _Sub(b, {}).visit(copy.deepcopy(g.elt)))
+                if it is not None and len(it) == len(n.targets[0].elts):
+                    n.value = ast.Tuple(elts=it, ctx=ast.Load())
+                    return n
+            self.generic_visit(n)
+            return n
 
         def visit_DictComp(self, n):
             self.generic_visit(n)
@@ -736,6 +841,102 @@ def expand_constant_dicts(fnode):
     return changed
 
 
+# --------------------------------------------------------------------------------------------------- forward propagation
+def forward_none_tests(stmts, known=None):
+    """walk a statement list top-down remembering which names hold None / a non-None value, and decide `x is None` /
+    `x is not None` tests that follow (straight-line only: loops and tries forget what they assign)"""
+    known = dict(known or {})          # name -> True (is None) | False (is not None)
+    changed = False
+    out = []
+
+    def kill(node):
+        for x in ast.walk(node):
+            if isinstance(x, ast.Name) and isinstance(x.ctx, ast.Store):
+                known.pop(x.id, None)
+
+    class T(ast.NodeTransformer):
+        def __init__(self):
+            self.hit = False
+
+        def visit_Compare(self, n):
+            self.generic_visit(n)
+            if len(n.ops) == 1 and isinstance(n.ops[0], (ast.Is, ast.IsNot)) and isinstance(n.left, ast.Name) and n.left.id in known and U(n.comparators[0]) == "None":
+                self.hit = True
+                return ast.copy_location(ast.Constant(value=known[n.left.id] == isinstance(n.ops[0], ast.Is)), n)
+            return n
+
+        def visit_FunctionDef(self, n):
+            return n
+
+        def visit_Lambda(self, n):
+            return n
+    for st in stmts:
+        if isinstance(st, ast.Assign) and len(st.targets) == 1 and isinstance(st.targets[0], ast.Name):
+            t = T()
+            st.value = t.visit(st.value)
+            changed = changed or t.hit
+            nm = st.targets[0].id
+            if isinstance(st.value, ast.Constant) and st.value.value is None:
+                known[nm] = True
+            elif isinstance(st.value, (ast.BinOp, ast.Call, ast.List, ast.Tuple, ast.Dict, ast.ListComp, ast.Subscript, ast.Attribute, ast.Compare)) or \
+                    (isinstance(st.value, ast.Constant) and st.value.value is not None):
+                # arithmetic, displays and constants are not None; calls / subscripts / attributes may be: only trust the safe ones
+                if isinstance(st.value, (ast.BinOp, ast.List, ast.Tuple, ast.Dict, ast.ListComp, ast.Compare)) or isinstance(st.value, ast.Constant):
+                    known[nm] = False
+                else:
+                    known.pop(nm, None)
+            elif isinstance(st.value, ast.Name) and st.value.id in known:
+                known[nm] = known[st.value.id]
+            else:
+                known.pop(nm, None)
+            out.append(st)
+            continue
+        if isinstance(st, ast.If):
+            t = T()
+            st.test = t.visit(st.test)
+            changed = changed or t.hit
+            if isinstance(st.test, ast.Constant) and isinstance(st.test.value, bool):
+                arm = st.body if st.test.value else st.orelse
+                new, ch = forward_none_tests(arm, known)
+                # continue with the knowledge after that arm
+                sub_known = dict(known)
+                for s2 in new:
+                    out.append(s2)
+                # recompute knowledge by re-walking the arm's assignments
+                for s2 in new:
+                    if isinstance(s2, ast.Assign) and len(s2.targets) == 1 and isinstance(s2.targets[0], ast.Name):
+                        v2 = s2.value
+                        if isinstance(v2, ast.Constant) and v2.value is None:
+                            known[s2.targets[0].id] = True
+                        elif isinstance(v2, (ast.BinOp, ast.List, ast.Tuple, ast.Dict, ast.ListComp, ast.Compare)) or (isinstance(v2, ast.Constant) and v2.value is not None):
+                            known[s2.targets[0].id] = False
+                        elif isinstance(v2, ast.Name) and v2.id in known:
+                            known[s2.targets[0].id] = known[v2.id]
+                        else:
+                            known.pop(s2.targets[0].id, None)
+                    else:
+                        kill(s2)
+                changed = True
+                continue
+            st.body, c1 = forward_none_tests(st.body, known)
+            st.orelse, c2 = forward_none_tests(st.orelse, known)
+            changed = changed or c1 or c2
+            kill(st)
+            out.append(st)
+            continue
+        if isinstance(st, (ast.Expr, ast.Return, ast.Raise, ast.Assert)):
+            t = T()
+            new = t.visit(st)
+            changed = changed or t.hit
+            out.append(new)
+            continue
+        kill(st)
+        for x in ast.walk(st):          # a call could rebind nothing local, but nested statements may
+            pass
+        out.append(st)
+    return out, changed
+
+
 # --------------------------------------------------------------------------------------------------- deferred raise
 def undefer_raises(stmts):
     """problem = None; if A: problem = M1 [elif B: problem = M2 ...]; if problem is not None: raise E(problem)
@@ -838,6 +1039,9 @@ def partial_evaluate(repo, max_rounds=4):
             if propagate_constant_locals(f.node):
                 ch = True
                 steps.append("constants")
+            if steps and propagate_tuple_locals(f.node):
+                ch = True
+                steps.append("tuples")
             fo = Fold(repo, f)
             f.node = fo.visit(f.node)
             body, c2 = fold_if_statements(f.node.body)
@@ -845,6 +1049,12 @@ def partial_evaluate(repo, max_rounds=4):
             if fo.changed or c2:
                 ch = True
                 steps.append("fold")
+            if steps:           # only in functions already being specialised: decide `x is None` tests on straight-line code
+                body, c4 = forward_none_tests(f.node.body)
+                f.node.body = body
+                if c4:
+                    ch = True
+                    steps.append("none-tests")
             body, c3 = undefer_raises(f.node.body)
             f.node.body = body
             if c3:
@@ -864,3 +1074,28 @@ def partial_evaluate(repo, max_rounds=4):
             ast.fix_missing_locations(f.node)
             report[q] = steps
     return report
+
+
+def fuse_comprehensions(e):
+    """[E(x) for x in [F(i) for i in IT]]  ->  [E(F(i)) for i in IT]   (single generators, no conditions), then constant folding
+    (so that `[x[0] for x in [(a[:, i], b[:, i]) for i in R]]` becomes `[a[:, i] for i in R]`)"""
+    e = copy.deepcopy(e)
+
+    class F(ast.NodeTransformer):
+        def _fuse(self, n):
+            self.generic_visit(n)
+            if len(n.generators) == 1 and not n.generators[0].ifs and isinstance(n.generators[0].target, ast.Name):
+                inner = n.generators[0].iter
+                if isinstance(inner, (ast.ListComp, ast.GeneratorExp)) and len(inner.generators) == 1 and not inner.generators[0].ifs:
+                    x = n.generators[0].target.id
+                    uses = sum(1 for y in ast.walk(n.elt) if isinstance(y, ast.Name) and y.id == x)
+                    if uses <= 1 or _cheap(inner.elt) or isinstance(inner.elt, ast.Tuple):
+                        n.elt = _Sub({x: inner.elt}, {}).visit(n.elt)
+                        n.generators = inner.generators
+            return n
+        visit_ListComp = _fuse
+        visit_GeneratorExp = _fuse
+    e = F().visit(e)
+    fo = Fold()
+    e = fo.visit(e)
+    return e
